@@ -7,6 +7,10 @@ GROUPS = [dict(g) for g in _c02.GROUPS if g["name"].startswith("hmm_vit_eval")] 
          bounded=None),
 ]
 NATIVE = [
+    dict(name="senone_score_enum", source="native/senone_score_enum.c", repo_sources="ALL_EXCEPT:", cflags=["-w", "-fsanitize=address"],
+         args={"quick": [], "thorough": ["thorough"]}, exhaustive=False,
+         bound="every frame of goforward.raw (en-us) and goforward_fr.raw (fr-fr), 3 rounds (thorough 12): scored through acmod_score for the senones of 1..6 random base phones (or all), "
+               "then requested again after acmod_advance with a different active set; every active score in [0, 32767] and the best exactly 0; about 3 000 scorings per quick run"),
     dict(name="feature_finite_enum", source="native/feature_finite_enum.c", repo_sources="ALL_EXCEPT:", cflags=["-w", "-fsanitize=address"],
          args={"quick": [], "thorough": []}, exhaustive=True,
          bound="EVERY combination of 13 signals (silence, full-scale square waves, impulses, DC offsets, white noise, zero padding, ramp, step) x int16|float samples x "
@@ -20,9 +24,9 @@ ASSUMPTIONS = [
 HAND_LEMMAS = ["scores never wrap along a path: each step keeps every state score in [WORST_SCORE, 0] (postcondition) and fsg_search renormalises before the best score can approach WORST_SCORE + 2^20 (renormalisation NOT under contract)"]
 NOT_COVERED = ["finiteness of cepstra, dynamic features and CMN state is decided only for the enumerated signal x configuration family by the native run feature_finite_enum (bounded stand-in, never counted as proved): "
                "the FFT / log / DCT pipeline is transcendental floating point over loops, outside what CBMC contracts decided here",
-               "senone score range and best-score normalisation in ptm_mgau / s2_semi_mgau / ms_mgau (seeded change C18_B: re-scoring an earlier frame with a different active senone set) -- NOT decided",
+               "senone score range and best-score normalisation (ptm_mgau for en-us, the fr-fr scorer): decided only on two recordings with random active sets by the native run senone_score_enum (bounded, never counted as proved); ms_mgau / s2_semi_mgau only as far as the bundled models use them",
                "hmm_normalize / renormalisation in fsg_search", "dither on, warping, other sample rates / filterbank sizes, the lda transform"]
 CLAIM = dict(
-    text="Integer clauses only: each Viterbi step of the 3-state evaluators keeps every state and exit score clamped in [WORST_SCORE, 0] and performs no signed overflow, for all inputs satisfying the HMM invariant (same proofs as C02 with overflow obligations on); the int16 -> float32 sample scaling round trip is exact for all 65 536 sample values. Finiteness of every cepstral / dynamic-feature value and of the CMN state (with text export -> import -> export stability) is checked by a native enumeration of 13 extreme signals x 2 sample types x 144 front-end / feature configurations through the real pipeline (bounded stand-in, not proof), which found a genuine defect (batch CMN of digital silence = 0/0 -> NaN features), repaired. The 16-bit acoustic-score range and best-score normalisation are NOT decided.",
+    text="Integer clauses only: each Viterbi step of the 3-state evaluators keeps every state and exit score clamped in [WORST_SCORE, 0] and performs no signed overflow, for all inputs satisfying the HMM invariant (same proofs as C02 with overflow obligations on); the int16 -> float32 sample scaling round trip is exact for all 65 536 sample values. Finiteness of every cepstral / dynamic-feature value and of the CMN state (with text export -> import -> export stability) is checked by a native enumeration of 13 extreme signals x 2 sample types x 144 front-end / feature configurations through the real pipeline (bounded stand-in, not proof), which found a genuine defect (batch CMN of digital silence = 0/0 -> NaN features), repaired. The 16-bit acoustic-score range and best-score normalisation are checked on every frame of two recordings for random active senone sets, including the re-request of the frame just left with a different set (bounded native run, not proof).",
     note="integer clauses by contract; feature / CMN finiteness by a bounded native enumeration of extreme signals (not proof); senone scoring not covered; trusted: CBMC 6.11, libm isfinite",
     technique="CBMC function contracts (goto-instrument --dfcc) with signed-overflow obligations; full-domain CBMC lemma over 16-bit inputs; native enumeration of extreme signals x configurations as bounded stand-in for the floating-point pipeline")
